@@ -32,7 +32,9 @@ ASSUMPTIONS = [
     "completion times of different blocks never coincide with each other or with another block's timeout "
     "(generator: timeouts are multiples of 8 s, completion of block i is = 1+i mod 8 s, or exactly its own timeout)",
     "after the simulator's error has been set by abort() the model stops: call logs are compared up to that point, "
-    "later calls are checked by the oracle only",
+    "later calls (until the cancellation reaches the simulation task at its next await, or the test before "
+    "_simulate()) are checked by the oracle only; a refused recursive event aborts at the refusal "
+    "(patches/C11-refused-recursion-aborts.diff)",
     "order independence is checked for acyclic init-event topologies only (DESIGN.md section 6)",
 ]
 EXHAUSTIVE = {'quick': False, 'thorough': False}
@@ -62,6 +64,8 @@ class _ProbeBase(edzed.block.Addon):
 
     def event(self, etype, /, **data):
         rec('V', self.name)
+        if self._event_active:
+            rec('X', self.name)     # the recursion guard of SBlock.event is going to refuse this event
         return super().event(etype, **data)
 
     def _c05_setup(self, script):
@@ -162,6 +166,8 @@ class LInput(edzed.Input):
 
     def event(self, etype, /, **data):
         rec('V', self.name)
+        if self._event_active:
+            rec('X', self.name)     # the recursion guard of SBlock.event is going to refuse this event
         return super().event(etype, **data)
 
 
@@ -522,6 +528,8 @@ def run_impl(scn):
             tags.add('init-event')
         if any(e[0] == 'E' and e[3] < 0 for e in log):
             tags.add('event-during-own-step')
+        if any(e[0] == 'X' for e in log):
+            tags.add('refused-recursion')
         if any(e[0] == 'Ac' for e in log):
             tags.add('async-timeout')
         if any(e[0] == 'A+' for e in log):
@@ -902,6 +910,11 @@ def oracle_run(scn, obs):
     if obs['init_done'] and any(o is edzed.UNDEF for o in obs['outs']):
         bad('init_done_only_when_all_initialised',
             f"_init_done is set although {[n for n, o in zip(names, obs['outs']) if o is edzed.UNDEF]} are uninitialised")
+    refused = [e[1] for e in log[:obs['loglen']] if e[0] == 'X']
+    if refused and (obs['wait'] == 'returned' or obs['error'] == 'none'):
+        bad('refused_recursion_fails_startup',
+            f"a recursive event to {refused[0]} was refused during the initialisation, but wait_init() "
+            f"{obs['wait']} and the error is {obs['error']}")
     if obs['wait'] == 'returned':
         if undef or not obs['ready'] or obs['error'] != 'none' or obs['simtask_done']:
             bad('wait_init_ok_implies_valid',
